@@ -1,7 +1,7 @@
 (* TieBase.v -- tactics shared by the tie proofs.  The functions translated from /repo/src/lib.rs on this run (Generated/Lib.v, G9)
    are equal to the hand-written model (Model.v) the theorems are about. *)
 From Coq Require Import List NArith Bool Lia ZifyBool ZifyN.
-From HV Require Import Cursor Scan Model Imp.
+From HV Require Import Cursor Scan Model Imp ImpLib.
 From HV.Generated Require Import Lib.
 Import ListNotations.
 Local Open Scope N_scope.
@@ -21,7 +21,7 @@ Definition to_out {L R B A} (r : ires L R B A) : out R :=
   | IExc (Ret v) _ c => Done v c
   | IPart _ => Part
   | IFail e _ => Fail e
-  | IFault f => Fault f
+  | IFault f _ => Fault f
   | _ => Fault Unreachable
   end.
 
@@ -29,7 +29,7 @@ Lemma irun_loop_tail {L R B} (m : I L R B B) l c :
   irun (m ;;~ ifault Unreachable)%imp l c = to_out (m l c).
 Proof.
   unfold irun, ifun, ibind, ifault, to_out.
-  destruct (m l c) as [a l' c'|l'|e l'|f|x l' c']; try reflexivity.
+  destruct (m l c) as [a l' c'|l'|e l'|f l'|x l' c']; try reflexivity.
   destruct x; reflexivity.
 Qed.
 
